@@ -38,7 +38,7 @@
 From Coq Require Import String List NArith ZArith Bool Arith Lia.
 From Tealer Require Import Tables LeafPrelude Leaves Syntax Parse Cfg StackAst Keys Analysis Domains Detect Group Driver.
 From Tealer Require Import Paths Literal LeafLemmas SolverLemmas ExactLemmas ExecLemmas GraphWf GraphOk NoMiss ExactInstances.
-From Tealer Require Import GroupLemmas GroupSem3.
+From Tealer Require Import TypeExec GroupLemmas GroupSem3.
 Import ListNotations.
 Open Scope string_scope.
 Open Scope list_scope.
@@ -512,4 +512,117 @@ Proof.
   intros Hp Hok Hsf Hone Hfun Hself Hel Habs Hrun Hdet.
   exact (single_group_eq_contract_fee funcs dtype vtypes t k _ r fuelr fuel ps Hone Hfun Hself Hel Habs
            (graph_wf_whole_function p tl Hp Hok) Hsf Hrun Hdet).
+Qed.
+
+(* ====================================================================== *)
+(* 4. instances: the kind-only detectors is-updatable / is-deletable        *)
+(* ====================================================================== *)
+(* the point of the kind domain: the label L is in the set (plain sets: every law is membership) *)
+Section KindOnly.
+  Variable L : string.
+  Hypothesis L_in_U : In L ALL_TRANSACTION_TYPES.
+  Variable checks : bctx -> bool.
+  (* the predicate reads the kind set only, and only through membership of L *)
+  Hypothesis checks_reads_L : forall c, checks c = negb (smem L (ctx_transaction_types c)).
+
+  Definition kind_danger (v : list string) : Prop := In L v.
+
+  Lemma kind_check_danger r b fam : checks (ctx_of r b fam) = false <-> kind_danger (res_types r fam b).
+  Proof.
+    rewrite checks_reads_L. unfold ctx_of, kind_danger. cbn [ctx_transaction_types].
+    rewrite negb_false_iff. apply LeafLemmas.smem_In.
+  Qed.
+
+  Lemma fam_val_res_types r fam b : fam_val (list string) ALL_TRANSACTION_TYPES (r_types r) fam b = res_types r fam b.
+  Proof. reflexivity. Qed.
+
+  Lemma validated_kind_unval r b :
+    validated_in_block r checks None b = false <->
+    unval (list string) ALL_TRANSACTION_TYPES kind_danger (r_indices r) (r_types r) b.
+  Proof.
+    unfold validated_in_block, unval, gidx.
+    change (ctx_group_indices (ctx_of r b KSelf))
+      with (match Analysis.lookup _ (r_indices r) b with Some l => l | None => [] end).
+    rewrite !fam_val_res_types.
+    destruct (checks (ctx_of r b KSelf)) eqn:E.
+    - split; [discriminate|]. intros [Hs _]. apply kind_check_danger in Hs. congruence.
+    - apply kind_check_danger in E. rewrite forallb_false. split.
+      + intros (i & Hi & Hc). split; [exact E|]. exists i. split; [exact Hi|].
+        rewrite fam_val_res_types. apply kind_check_danger. exact Hc.
+      + intros (_ & i & Hi & Hd). exists i. split; [exact Hi|]. apply kind_check_danger.
+        rewrite fam_val_res_types in Hd. exact Hd.
+  Qed.
+
+  Theorem unvalidated_leaf_has_unvalidated_path_kind f fuel r b :
+    graph_wf f = true -> subroutine_free f -> run_all f fuel = Done r ->
+    fn_leaf_block f b -> validated_in_block r checks None b = false ->
+    exists p, GoodPath f (validated_in_block r checks None) p /\ last p 0 = b.
+  Proof.
+    intros Hwf Hsf Hrun Hleaf Hv.
+    destruct (run_all_inv f fuel r Hrun) as (sizes & idx0 & Es & Ex & _ & Eidx & _).
+    destruct (run_all_type_inv f fuel r Hrun) as (sizes' & idx0' & Es' & Ex' & Hfam).
+    rewrite Es in Es'. rewrite Ex in Ex'. inversion Es'; inversion Ex'; subst sizes' idx0'.
+    rewrite <- Eidx in Hfam.
+    apply (unvalidated_leaf_has_unvalidated_path (list string) lset_eqb ALL_TRANSACTION_TYPES [] lunion linter
+             (fun fam => type_single (fn_intcs f) fam) kind_danger
+             (fun H => H)
+             (fun a b H => proj1 (lunion_In a b L) H)
+             (fun a b H => proj1 (linter_In a b L) H)
+             L_in_U
+             (fun a b H => proj2 (lunion_In a b L) (or_introl H))
+             (fun a b H => proj2 (lunion_In a b L) (or_intror H))
+             (fun a b Ha Hb => proj2 (linter_In a b L) (conj Ha Hb))
+             (fun a b H => proj1 (lset_eqb_spec a b) H L)
+             lset_eqb_refl f fuel (r_indices r) (r_types r) Hwf Hsf Hfam
+             (run_all_indices_range f fuel r Hrun)); [|exact Hleaf|exact Hv].
+    intros b'. apply validated_kind_unval.
+  Qed.
+
+  Theorem leaves_justified_kind f fuel r :
+    graph_wf f = true -> subroutine_free f -> run_all f fuel = Done r -> leaves_justified f r checks.
+  Proof.
+    intros Hwf Hsf Hrun (b & Hleaf & Hv).
+    destruct (unvalidated_leaf_has_unvalidated_path_kind f fuel r b Hwf Hsf Hrun Hleaf Hv) as (p & HG & _).
+    exists p. exact HG.
+  Qed.
+
+  Theorem single_group_eq_contract_kind name funcs dtype vtypes t k f r fuelr fuel ps :
+    name <> "group-size-check" ->
+    single_contract t k -> nth_error funcs k = Some (f, r) -> relative_accessors [t] t = [] ->
+    eligible dtype vtypes t -> g_abs t = None ->
+    graph_wf f = true -> subroutine_free f -> run_all f fuelr = Done r ->
+    run_detector f r fuel name checks = Done ps ->
+    (txn_vulnerable funcs checks dtype vtypes [t] t = true <-> ps <> []).
+  Proof.
+    intros Hn Hone Hfun Hself Hel Habs Hwf Hsf Hrun Hdet.
+    exact (single_group_eq_contract_partial funcs checks dtype vtypes t k f r Hone Hfun Hself Hel
+             fuel name ps Hn Habs (leaves_justified_kind f fuelr r Hwf Hsf Hrun) Hdet).
+  Qed.
+End KindOnly.
+
+Lemma updatable_in_U : In "ApplUpdateApplication" ALL_TRANSACTION_TYPES.
+Proof. vm_compute. auto 12. Qed.
+Lemma deletable_in_U : In "ApplDeleteApplication" ALL_TRANSACTION_TYPES.
+Proof. vm_compute. auto 13. Qed.
+
+Theorem single_group_eq_contract_updatable funcs dtype vtypes t k f r fuelr fuel ps :
+  single_contract t k -> nth_error funcs k = Some (f, r) -> relative_accessors [t] t = [] ->
+  eligible dtype vtypes t -> g_abs t = None ->
+  graph_wf f = true -> subroutine_free f -> run_all f fuelr = Done r ->
+  run_detector f r fuel "is-updatable" checks_is_updatable = Done ps ->
+  (txn_vulnerable funcs checks_is_updatable dtype vtypes [t] t = true <-> ps <> []).
+Proof.
+  apply (single_group_eq_contract_kind "ApplUpdateApplication" updatable_in_U checks_is_updatable (fun c => eq_refl)
+           "is-updatable"). discriminate.
+Qed.
+
+Theorem single_group_eq_contract_deletable funcs dtype vtypes t k f r fuelr fuel ps :
+  single_contract t k -> nth_error funcs k = Some (f, r) -> relative_accessors [t] t = [] ->
+  eligible dtype vtypes t -> g_abs t = None ->
+  graph_wf f = true -> subroutine_free f -> run_all f fuelr = Done r ->
+  run_detector f r fuel "is-deletable" checks_is_deletable = Done ps ->
+  (txn_vulnerable funcs checks_is_deletable dtype vtypes [t] t = true <-> ps <> []).
+Proof.
+  apply (single_group_eq_contract_kind "ApplDeleteApplication" deletable_in_U checks_is_deletable (fun c => eq_refl)
+           "is-deletable"). discriminate.
 Qed.
